@@ -85,6 +85,10 @@ var c13LongChars = []string{"\U0001F600", "\U0010FFFF", "<", "\n", "é", "\u2028
 // substitutes characters; what the characters add up to is none of its business.
 var c13Whole = []string{"0", "-1", "+1", "1.5", ".5", "5.", "1e5", "1e+5", "2E+10", "1E-3", "0x1p+4", "0x1F", "1_000", "1,000.50", "Inf", "+Inf", "NaN", "1e+", "e+5", "12+34", "1+1=2",
 	"true", "false", "null", "nil", "undefined", "http://a.b/c?d=e&f=g#h", "https://h", "//h/p", "mailto:a@b.c", "a@b.c", "javascript:alert(1)", "data:text/html,<b>", "2021-03-04T05:06:07+01:00", "+49 30 123",
+	// tokens of other languages and of terminals: sequences of several characters that mean something somewhere - to
+	// an escaper they are characters
+	"\x1b[31mred\x1b[0m", "\x1b[1;32m", "\x1b]0;title\x07", "\x1b[2J", "\x9b31m", "<!-- c -->", "<![CDATA[x]]>", "<?php echo 1 ?>", "{{ x }}", "${x}", "#{x}", "%s %d %%", "&nbsp;", "+ADw-script+AD4-", "a\ufeffb", "vbscript:x", "data:,x",
+	"expression(1)", "url(x)", "@import 'a'", "</script>", "]]>", "-->", "--!>", "*/ x /*", "// c", "a\u2028b", "\\x3c", "\\74", "&#x3C;", "&lt;", "%3C", "\r\n", "\u200d\u200d", "e\u0301\u0301",
 	"{\"a\": [1, 2]}", "[1, 2]", "<!DOCTYPE html>", "<?xml version=\"1.0\"?>", "&copy;", "&#169;", "&#xA9;", "\\u00e9", "%C3%A9", "a+b", "a b", "a%20b", "100%", "%", "%%", "%zz", "\\", "\\\\n"}
 
 // ... and strings made of one character over and over: whatever an escaper sizes ahead of time, it sizes it for the
